@@ -21,7 +21,7 @@ import re
 from fractions import Fraction
 from poly import Poly
 from symx import Interp, Leaf, Obj, Cell, POISON, SymxError, CutDone, loops_of, locals_of, for_parts, run_iteration
-from groupdom import GroupDomain, P as PP, z3_query, path_feasible, _norm
+from groupdom import GroupDomain, P as PP, z3_query, path_feasible, _norm, _smt_term
 from scen import ScenUnit, guarded, Abandon
 import units as U
 import bvspec
@@ -268,19 +268,97 @@ def gen_inverse(tu, fname):
             a.f["val"].val = A
             facts = [K * A - R2 - Poly.var("s") * p]           # definition of K (a != 0 on every path that reaches the loops)
             st = {}
+            # gcd(a, p) == 1 for 0 < a < p, p prime (closed fact): Bezout witnesses exist at loop entry (u == a, v == p)
+            st["bez"] = (Poly.var("Xe") * A + Poly.var("Ye") * p - 1, Poly.var("Xe"), Poly.var("Ye"))
 
             def leafs(env):
                 return env[names["u"]], env[names["v"]], env[names["b"]].f["val"], env[names["c"]].f["val"]
 
-            def havoc(env, tag):
-                """arbitrary state satisfying Inv"""
+            def havoc(env, tag, which="uv"):
+                """arbitrary state satisfying Inv (only the named loop's frame is replaced: u,b and / or v,c)"""
                 u, v, b, c = leafs(env)
-                u.val, v.val = dom.fresh_scalar("u" + tag, 0, 1 << bits), dom.fresh_scalar("v" + tag, 0, 1 << bits)
-                b.val, c.val = dom.fresh_scalar("b" + tag, 0, p), dom.fresh_scalar("c" + tag, 0, p)
+                if "u" in which:
+                    u.val, b.val = dom.fresh_scalar("u" + tag, 1, 1 << bits), dom.fresh_scalar("b" + tag, 0, p)
+                if "v" in which:
+                    v.val, c.val = dom.fresh_scalar("v" + tag, 1, 1 << bits), dom.fresh_scalar("c" + tag, 0, p)
                 tb, tc = Poly.var("tb" + tag), Poly.var("tc" + tag)
                 st["facts"] = facts + [PP(b.val) - K * PP(u.val) - tb * p, PP(c.val) - K * PP(v.val) - tc * p]
+                X, Y = Poly.var("X" + tag), Poly.var("Y" + tag)
+                st["bez"] = (X * PP(u.val) + Y * PP(v.val) - 1, X, Y)     # termination ghost: gcd(u, v) == 1 by Bezout witnesses
 
-            def inv_obs(env, tag):
+            def lin_query(goal_terms, extra_vars=()):
+                rng = {}
+                for (q_, _) in dom.constraints:
+                    for v_ in PP(q_).vars():
+                        rng.setdefault(v_, dom.ranges.get(v_, (0, 1 << bits)))
+                for v_ in extra_vars:
+                    rng.setdefault(v_, dom.ranges.get(v_, (-(1 << (bits + 2)), 1 << (bits + 2))))
+                return z3_query(rng, dom.constraints, goal_terms, 30)[0]
+
+            def entails(poly, rel, what):
+                """(what, status): the path constraints entail  poly rel 0  (linear integer arithmetic)"""
+                poly = PP(poly)
+                neg = {">=0": "(< %s 0)", "<0": "(>= %s 0)", "==0": "(not (= %s 0))"}[rel]
+                if poly.is_const():
+                    c_ = poly.const_value()
+                    ok = (c_ >= 0) if rel == ">=0" else (c_ < 0) if rel == "<0" else (c_ == 0)
+                    return (what, "ok" if ok else "fail", repr(poly), None)
+                if poly.degree() > 1:
+                    return (what, "undecided", "non-linear %r" % poly, None)
+                r_ = lin_query([neg % _smt_term(poly)], poly.vars())
+                return (what, "ok" if r_ == "unsat" else "fail" if r_ == "sat" else "undecided", "" if r_ == "unsat" else repr(poly), None)
+
+            def apply_linear(polys):
+                """substitute the path's linear equalities that have a unit-coefficient variable (the variable equals the expression)"""
+                rels = [PP(x) for (x, r) in dom.constraints if r == "==0"]
+                polys = list(polys)
+                changed = True
+                while changed:
+                    changed = False
+                    for i, r in enumerate(rels):
+                        if r.is_zero() or r.degree() != 1:
+                            continue
+                        cands = [(m[0][0], c_) for m, c_ in r.t.items() if m and abs(c_) == 1]
+                        cands.sort(key=lambda vc: (vc[0].startswith("half") or vc[0].startswith("odd"), vc[0]))
+                        if not cands:
+                            continue
+                        v_, c_ = cands[0]
+                        expr = Poly.var(v_) - r * c_
+                        polys = [x.subs({v_: expr}) for x in polys]
+                        rels = [x.subs({v_: expr}) for j, x in enumerate(rels) if j != i]
+                        changed = True
+                        break
+                return polys
+
+            def bezout_obs(u_, v_, tag):
+                """gcd(u, v) == 1 is kept: witnesses for the new state are integer combinations of the old ones"""
+                fact, X, Y = st["bez"]
+                for Xc, Yc, how in ((X, Y, "same"), (X * 2, Y, "2X, Y"), (X, Y * 2, "X, 2Y"), (X, X + Y, "X, X+Y"), (X + Y, Y, "X+Y, Y")):
+                    G, F_ = apply_linear([Xc * PP(u_) + Yc * PP(v_) - 1, fact])
+                    if (G - F_).is_zero():
+                        return ("%s: gcd(u, v) == 1 (Bezout witnesses)" % tag, "ok", how, None)
+                return ("%s: gcd(u, v) == 1 (Bezout witnesses)" % tag, "fail", "no integer combination of the previous witnesses works for u = %r, v = %r" % (PP(u_), PP(v_)), None)
+
+            def bezout_infeasible():
+                """u == v on this path and u >= 2 contradict X*u + Y*v == 1 (u would divide 1)"""
+                if "bez" not in st:
+                    return False
+                fact = st["bez"][0]
+                for (q_, r_) in dom.constraints:
+                    q_ = PP(q_)
+                    if r_ != "==0" or len(q_.t) != 2 or q_.degree() != 1 or () in q_.t:
+                        continue
+                    (m1, c1), (m2, c2) = sorted(q_.t.items())
+                    if c1 + c2 != 0 or abs(c1) != 1:
+                        continue
+                    s1, s2 = m1[0][0], m2[0][0]
+                    F_ = fact.subs({s1: Poly.var(s2)})
+                    if abs(F_.t.get((), 0)) == 1 and all(any(v_ == s2 for (v_, _) in m) for m in F_.t if m != ()):
+                        if lin_query(["(< %s 2)" % _smt_term(Poly.var(s2))], [s2]) == "unsat":
+                            return True
+                return False
+
+            def inv_obs(env, tag, head=False):
                 u, v, b, c = leafs(env)
                 rels = list(st.get("facts", facts)) + [PP(x) for (x, r) in dom.constraints if r == "==0"]
                 obs = []
@@ -291,26 +369,46 @@ def gen_inverse(tu, fname):
                     dom.range_obligation(I, x.val, p, "%s: %s.val < p" % (tag, nm))
                     dom.range_obligation(I, y.val, 1 << bits, "%s: %s fits" % (tag, "u" if nm == "b" else "v"))
                     obs += [(w_, s_, m_, None) for (w_, s_, m_) in dom.side]
+                    # termination part of Inv: u, v >= 1 (so the halving loops cannot spin on 0) and gcd(u, v) == 1
+                    obs.append(entails(PP(y.val) - 1, ">=0", "%s: %s >= 1" % (tag, "u" if nm == "b" else "v")))
+                obs.append(bezout_obs(u.val, v.val, tag))
+                if head:
+                    # outer-loop head only: u and v are not both even (after the subtraction exactly one is; at entry v == p)
+                    r_ = lin_query(["(= %s (* 2 |jpv_m1|))" % _smt_term(PP(u.val)), "(= %s (* 2 |jpv_m2|))" % _smt_term(PP(v.val))],
+                                   list(PP(u.val).vars()) + list(PP(v.val).vars()) + ["jpv_m1", "jpv_m2"])
+                    obs.append(("%s: u, v not both even" % tag, "ok" if r_ == "unsat" else "fail" if r_ == "sat" else "undecided", "", None))
                 return obs
 
             def finish(obs):
-                if not path_feasible(dom):
+                if not path_feasible(dom) or bezout_infeasible():
                     raise Abandon()
                 raise CutDone(obs + [(w_, s_, m_, None) for (w_, s_, m_) in dom.side if s_ != "ok"])
+
+            def guard(I_, n, env):
+                init, cond, inc, body = for_parts(n)
+                return I_.truth(I_.rv(I_.ev(cond, env)), n)
 
             def cut_outer(I_, n, env):
                 if mode == "base":
                     st["facts"] = facts
-                    finish(inv_obs(env, "base"))
+                    finish(inv_obs(env, "base", head=True))
                 havoc(env, "0")
+                u, v, b, c = leafs(env)
                 if mode == "step-outer":
+                    # Inv at the outer head includes "u, v not both even": one run per disjunct
+                    odd = I_.path.decide(("inv", "which of u, v is odd"), ("u", "v"))
+                    g = dom.fresh_scalar("odd", 0, 1 << bits)
+                    dom.constraints.append((PP((u if odd == "u" else v).val) - g * 2 - 1, "==0"))
+                    st["M"] = PP(u.val) + PP(v.val)
                     went = run_iteration(I_, n, env)
                     if not went:
                         raise Abandon()
-                    finish(inv_obs(env, "outer step"))
+                    obs = inv_obs(env, "outer step", head=True)
+                    u, v, b, c = leafs(env)
+                    obs.append(entails(st["M"] - PP(u.val) - PP(v.val) - 1, ">=0", "outer step: the variant u + v strictly decreases (and stays >= 2)"))
+                    finish(obs)
                 if mode == "exit":
-                    init, cond, inc, body = for_parts(n)
-                    if I_.truth(I_.rv(I_.ev(cond, env)), n):
+                    if guard(I_, n, env):
                         raise Abandon()
                     return                      # continue with the real epilogue
                 # inner-loop steps: enter the body (guard true), the inner handlers take over
@@ -322,24 +420,39 @@ def gen_inverse(tu, fname):
             def cut_inner(which):
                 def h(I_, n, env):
                     if mode == "step-outer":
-                        # entry: Inv holds (same predicate); then an arbitrary Inv state with this loop's guard false
+                        # a loop whose guard is false on entry is skipped: the state is untouched (this is what keeps "u != 1" for an odd u)
+                        if not guard(I_, n, env):
+                            return
+                        # entry: Inv holds (same predicate); then an arbitrary Inv state of this loop's frame (u,b or v,c) with the guard false,
+                        # not above the entry value (the halving step below shows both)
                         obs_in = inv_obs(env, "entry of halving loop %s" % which)
                         st.setdefault("pending", []).extend(obs_in)
-                        havoc(env, which)
-                        init, cond, inc, body = for_parts(n)
-                        if I_.truth(I_.rv(I_.ev(cond, env)), n):
+                        u, v, b, c = leafs(env)
+                        before = PP((u if which == "u" else v).val)
+                        havoc(env, which, which)
+                        u, v, b, c = leafs(env)
+                        dom.constraints.append((before - PP((u if which == "u" else v).val), ">=0"))
+                        if guard(I_, n, env):
                             raise Abandon()
                         return
                     if mode == "step-halve-" + which:
                         havoc(env, which)
+                        u, v, b, c = leafs(env)
+                        pre = dict(u=PP(u.val), v=PP(v.val), b=PP(b.val), c=PP(c.val))
                         went = run_iteration(I_, n, env)
                         if not went:
                             raise Abandon()
-                        finish(inv_obs(env, "halving step (%s)" % which))
+                        obs = inv_obs(env, "halving step (%s)" % which)
+                        u, v, b, c = leafs(env)
+                        mine, other, oc = (u, v, c) if which == "u" else (v, u, b)
+                        oname, ocname = ("v", "c") if which == "u" else ("u", "b")
+                        obs.append(entails(pre[which] - PP(mine.val) - 1, ">=0", "halving step (%s): the variant %s strictly decreases" % (which, which)))
+                        same = (PP(other.val) - pre[oname]).is_zero() and (PP(oc.val) - pre[ocname]).is_zero()
+                        obs.append(("halving step (%s): frame -- %s and %s untouched" % (which, oname, ocname), "ok" if same else "fail", "", None))
+                        finish(obs)
                     if mode == "step-halve-v" and which == "u":
                         havoc(env, which)
-                        init, cond, inc, body = for_parts(n)
-                        if I_.truth(I_.rv(I_.ev(cond, env)), n):
+                        if guard(I_, n, env):
                             raise Abandon()
                         return
                     raise SymxError("unexpected inner cut in mode " + mode)
@@ -399,15 +512,23 @@ def _replay(rec, unit, result, fresh, tu, wd, cx):
     nw = bits // 64
     lines = [R_.unity_source(), "#include <stdio.h>", "#include <string.h>", "using namespace embedded_pairing; using namespace embedded_pairing::core; using namespace embedded_pairing::bls12_381;",
              "static void out(const char* n, int k, const %s& x){ printf(\"%%s%%d\", n, k); uint64_t w[%d]; memcpy(w, &x.val, sizeof w); for(int i=0;i<%d;i++) printf(\" %%llu\", (unsigned long long)w[i]); printf(\"\\n\"); }" % (fname, nw, nw),
-             "int main(){"]
+             "#include <signal.h>", "#include <unistd.h>", "static volatile int jpv_cur = -1;",
+             "static void jpv_hang(int){ char m[32]; int n = snprintf(m, sizeof m, \"hang %d\\n\", jpv_cur); fflush(stdout); if (write(1, m, n)) {} _exit(0); }",
+             "int main(){ signal(SIGALRM, jpv_hang);"]
     for k, v in enumerate(cands):
         ws = ", ".join("%dULL" % ((v >> (64 * i)) & (2**64 - 1)) for i in range(nw))
+        lines.append("  jpv_cur = %d; alarm(10);" % k)
         lines.append("  { %s a, r; uint64_t w[%d] = {%s}; memcpy(&a.val, w, sizeof w); fp_inverse(r, a); out(\"r\", %d, r); fp_inverse(a, a); out(\"s\", %d, a); }" % (fname, nw, ws, k, k))
     lines.append("  return 0; }")
     native, err = R_.run_native("\n".join(lines), wd, unit.name()[:40] + "_native")
     rec["native_driver_error"] = err
     if native is None:
         return False
+    if native.get("hang"):
+        v = cands[native["hang"][0]]
+        rec["native_finding"] = "real fp_inverse<%s> does not return within 10 s on a.val = %d (it takes microseconds on every operand for which it terminates)" % (fname, v)
+        rec["confirmed_on_real_code"] = True
+        return True
     for k, v in enumerate(cands):
         for tag in ("r", "s"):
             ws = native.get("%s%d" % (tag, k))
